@@ -22,7 +22,8 @@ HARNESSES = [
     {"name": "asan", "src": "harness.cpp", "flags": ["-O0", "-DTETL_ENABLE_CONTRACT_CHECKS=1", "-fsanitize=address,undefined",
                                                      "-fno-sanitize-recover=all"]},
 ]
-RULE = ("every probed operation x every small object state x arguments at and beyond each boundary (size, size+1, SIZE_MAX, "
+RULE = ("five builds (CHECKS, SAFE, both macros, neither macro [mode probes only], CHECKS under ASan+UBSan); "
+        "every probed operation x every small object state x arguments at and beyond each boundary (size, size+1, SIZE_MAX, "
         "SIZE_MAX-size, 2^63, dynamic_extent) and the complementary valid arguments; the handler compares the object's bytes with the "
         "pre-call snapshot at the moment it runs; non-trivial = distinct probe")
 TRUSTED_BASE = ["reference leg: the documented precondition evaluated in the harness with 128-bit arithmetic",
